@@ -12,7 +12,7 @@
 //   orange/orangeinp/{UnitProto, CsgObject, Shape}, InputBuilder, OrangeParams, OrangeTrackView
 //                                    (mode unit: the per-volume bbox as built + real point location)
 //
-//   vboundzone pairs  <in.ndjson> <out.ndjson> <scale_exp> <offset> <first> <count>
+//   vboundzone pairs  <in.ndjson> <out.ndjson> <scale_exp> <offset> <first> <count> [rowsonly]
 //   vboundzone chains <in.ndjson> <out.ndjson> <scale_exp> <offset>
 //   vboundzone clips  <in.ndjson> <out.ndjson> <scale_exp> <offset>
 //   vboundzone rand   <seed> <count> <ncoord> <out.ndjson> <scale_exp> <offset>
@@ -241,7 +241,7 @@ Axis to_axis(int a)
 //---------------------------------------------------------------------------//
 // pairs: every box, every pair of boxes, every zone, every pair of zones
 //---------------------------------------------------------------------------//
-void mode_pairs(json const& header, verif::NdjsonWriter& w, std::size_t first, std::size_t count)
+void mode_pairs(json const& header, verif::NdjsonWriter& w, std::size_t first, std::size_t count, bool rows_only)
 {
     std::vector<BBox> boxes;
     for (auto const& b : header.at("boxes"))
@@ -253,7 +253,7 @@ void mode_pairs(json const& header, verif::NdjsonWriter& w, std::size_t first, s
     int dims = header.at("dims").get<int>();
     auto tol = Tolerance<double>::from_default();
 
-    if (first == 0)
+    if (!rows_only)
     {
         for (std::size_t i = 0; i < boxes.size(); ++i)
         {
@@ -749,7 +749,7 @@ int main(int argc, char** argv)
     int n = 0;
     if (mode == "pairs")
     {
-        mode_pairs(header, w, first, count);
+        mode_pairs(header, w, first, count, argc > 8 && std::string(argv[8]) == "rowsonly");
     }
     else if (mode == "chains")
     {
